@@ -23,19 +23,50 @@
 //	                field classification; for sampled content mutations with the header kept, the ID
 //	                differs or ValidateBlock rejects (v2 blocks keep their ID: ValidateBlock must reject).
 //
-// Sensitivity (tools/with_mutant.sh -e <sed> <file> -- ./run C12 quick; seconds = wall of the whole sharded run):
+// Sensitivity (tools/with_mutant.sh -e <sed> <file> -- ./run C12 quick; seconds = wall of the whole run
+// including the rebuild of the library, on a machine shared with other builders). "ref on" is the
+// registered configuration; "ref off" (C12_NOREF=1) disables every comparison with the reference
+// layout, to show what the field-set / distinctness / era / purpose / block oracles find on their own.
 //
-//	see the table at the end of this comment block (filled in after the mutant runs).
+//	                                                                   ref on (first key)                ref off (first key)
+//	M01 V2TransactionSemantics drops MinerFee ........................ killed 52 s v2/id-layout           killed 44 s v2/id-unbound/MinerFee.Lo
+//	M02 V2TransactionSemantics drops NewFoundationAddress ............ killed 48 s v2/id-layout           killed 50 s v2/id-unbound/NewFoundationAddress#nil
+//	M03 v1 Transaction.ID hashes the signatures too .................. killed 50 s v1/id-layout           killed 50 s v1/id-malleable/Signatures#len
+//	M04 MinerOutputID ignores the index .............................. killed 44 s derived-id-collision/MinerOutputID~MinerOutputID
+//	M05 attestation sighash uses the contract distinguisher .......... killed 58 s sighash/purpose/filecontract~attestation (+Attestation-layout)   killed 23 s same
+//	M06 WholeSigHash: no replay prefix for siafund inputs ............ killed 57 s sighash/Whole-layout    killed 48 s sighash/Whole-era-replay
+//	M07 FileContractID uses the siacoin-output specifier ............. killed 75 s v1/derived-layout      killed 44 s derived-id-collision/SiacoinOutputID~FileContractID
+//	M08 Commitment ignores the miner address ......................... killed 77 s commitment/layout      killed 26 s commitment/miner-unbound + block/v2-content-unbound/MinerPayouts.N.Address (sim)
+//	M09 blockMerkleRoot skips miner payouts .......................... killed 79 s block/v1-id-unbound/MinerPayouts#len (+id-layout)
+//	M10 semantics keeps the ProofIndex Merkle proof .................. killed 83 s v2/id-malleable/...ProofIndex.StateElement.MerkleProof#len
+//	M11 semantics keeps revision signatures .......................... killed 77 s v2/id-layout, v2/id-malleable
+//	M12 semantics encodes the whole siacoin parent element ........... killed 63 s v2/id-layout           killed 40 s v2/id-malleable/SiacoinInputs.N.Parent.StateElement.LeafIndex
+//	M13 Foundation-era replay prefix equals the ASIC-era prefix ...... killed 54 s sighash/Whole-layout    killed 38 s sighash/Whole-era-replay
+//	M14 RenewalSigHash keeps the renewal signatures .................. killed 48 s sighash/Renewal-layout  killed 47 s sighash/Renewal-covers-signature
+//	M15 ValidateBlock does not compare the v2 commitment ............. killed 57 s block/v2-content-unbound/... (sim chains: mutated v2 block accepted under its old ID)
+//	M16 V2ClaimOutputID equals the v1 ClaimOutputID .................. killed 79 s derived-id-collision/ClaimOutputID~V2ClaimOutputID
+//	M17 MissedOutputID equals ValidOutputID .......................... killed 56 s derived-id-collision/ValidOutputID~MissedOutputID
+//	M18 semantics drops the siafund claim address (the fixed defect) . killed 44 s v2/id-layout           killed 50 s v2/id-unbound/SiafundInputs.N.ClaimAddress
+//	M19 PartialSigHash: no replay prefix for siacoin inputs .......... killed 47 s sighash/Partial-layout  killed 44 s sighash/Partial-era-replay
+//	M20 State encoding drops the attestation count ................... killed 58 s commitment/layout      killed 44 s commitment/state-unbound/Attestations
+//	M21 Commitment skips the v1 transactions ......................... killed 44 s commitment/txn-unbound/#len + block/v2-content-unbound/Transactions#len
+//	M22 AttestationID uses the contract distinguisher ................ killed 41 s v2/derived-layout      killed 65 s derived-id-collision/V2FileContractID~AttestationID
+//	M23 InputSigHash hashes the full transaction ..................... (ref off) killed 33 s sighash/Input-covers-signature
+//	M24 ContractSigHash keeps the contract signatures ................ (ref off) killed 62 s sighash/Contract-covers-signature
+//	M25 V2HostOutputID equals V2RenterOutputID ....................... (ref off) killed 60 s derived-id-collision/V2RenterOutputID~V2HostOutputID
+//	M26 semantics drops the revision parent ID ....................... (ref off) killed 52 s v2/id-unbound/FileContractRevisions.N.Parent.ID
+//	M27 semantics keeps formation contract signatures ................ (ref off) killed 46 s v2/id-malleable/FileContracts.N.RenterSignature
+//	C00 control: semantically empty change of types/encoding.go ...... survived (exit 0), as it must
 //
-// MUTANT-TABLE-PLACEHOLDER
+// No mutant survived. Saved cases of the mutant runs replay green on the unchanged tree and red on the mutant.
 package c12
 
 import (
 	"bytes"
-	"errors"
 	"encoding/binary"
 	"encoding/hex"
 	"encoding/json"
+	"errors"
 	"fmt"
 	"reflect"
 	"sort"
@@ -965,7 +996,9 @@ func checkV1SigHashes(n *consensus.Network, heights []uint64, txn types.Transact
 	covered := subset(len(txn.Signatures), &seed)
 	hasInputs := len(txn.SiacoinInputs)+len(txn.SiafundInputs) > 0
 	eras, err = checkV1Eras(n, heights, hasInputs, "Whole",
-		func(s consensus.State) types.Hash256 { return s.WholeSigHash(txn, parentID, pkIndex, timelock, covered) },
+		func(s consensus.State) types.Hash256 {
+			return s.WholeSigHash(txn, parentID, pkIndex, timelock, covered)
+		},
 		func(p []byte) types.Hash256 { return refWholeSigHash(p, txn, parentID, pkIndex, timelock, covered) })
 	if err != nil {
 		return
@@ -1535,7 +1568,7 @@ func drawChain(t *rapid.T) ChainCase {
 
 func rejectClass(err error) string {
 	s := err.Error()
-	for _, k := range []string{"commitment", "payout", "height", "supplement", "weight", "work", "nonce", "signature"} {
+	for _, k := range []string{"commitment", "payout", "height", "supplement", "weight", "overflow", "zero value", "work", "nonce", "signature"} {
 		if strings.Contains(s, k) {
 			return k
 		}
